@@ -2295,7 +2295,8 @@ static bool parse_next(TokenContext &ctx, Chunk &pc, const Chunk *prev_pc)
    auto ch = ctx.peek();
 
    if (  (  language_is_set(lang_flag_e::LANG_C)
-         || language_is_set(lang_flag_e::LANG_CPP))
+         || language_is_set(lang_flag_e::LANG_CPP)
+         || language_is_set(lang_flag_e::LANG_OC))
       && (  ch == 'u'                     // 117
          || ch == 'U'                     // 85
          || ch == 'R'                     // 82
